@@ -1,7 +1,11 @@
 (* C06 — the universal claim about the search ("the bucketed search with merging returns
-   exactly the reference set"), only STATED ([search_complete_stmt true] = the code as it is now,
-   not proved: C06 is claimed partial), and its refutation for the code as it was pinned
+   exactly the reference set"), STATED here ([search_complete_stmt true] = the code as it is now),
+   and its refutation for the code as it was pinned
    (cpctplus.rs, CPCTPlus::shift: `if n.pstack != n_pstack`; repaired by /repo cf71a95).
+   [search_complete_stmt true] is decided in C06/Complete*.v: exactly as stated below it is FALSE (the
+   search skips neighbours whose cost exceeds u16::MAX: CompleteExamples.search_complete_needs_cost_bound);
+   with the bound `cmin <= 65535` it is PROVED (CompleteSpec.search_complete_bounded_stmt,
+   CompleteValidated.search_complete_at_error_stmt, CompleteValidatedRank.validated_search_complete_stmt).
 
    Witness (DESIGN §9):  S: S 'a' B | B;  B: 'b' C | ;  C: 'c' | 'c' C;   input  b a a.
    The error is at the first 'a'.  `Insert c` (cost 1) repairs it: b c a a is a sentence.
